@@ -90,7 +90,7 @@ def run_case(ctx, case, model=None):
                     pf = o["pre_fail"]
                     try:
                         rl.record_artifacts_as_dict(pf["artifacts"], exclude_patterns=pf["exclude_patterns"],
-                                                    lstrip_paths=pf["lstrip_paths"])
+                                                    lstrip_paths=pf["lstrip_paths"], base_path=pf.get("base_path"))
                     except Exception:  # noqa
                         pass
                 res = rl.in_toto_match_products(link, paths=o["paths"], exclude_patterns=o["exclude_patterns"],
@@ -123,6 +123,19 @@ def pinned_cases():
                        # a stripped name that equals an unstripped one, stripped file first: the recording is refused
                        ({"build": d(**{"app.bin": f("built")}), "app.bin": f("src"), "lib": d(**{"x": f("1")})},
                         {"paths": ["build", "app.bin"], "exclude_patterns": None, "lstrip_paths": ["build/"], "link_paths": ["build"]}),
+                       # history: a recording under a BASE PATH fails in the middle of hashing (two files under one name):
+                       # the comparison made next is about the same working directory as ever
+                       (t3, {"paths": None, "exclude_patterns": None, "lstrip_paths": None,
+                             "pre_fail": {"artifacts": ["trace.log", "deep/trace.log"], "exclude_patterns": None,
+                                          "lstrip_paths": ["deep/"], "base_path": "keep"}}),
+                       (t3, {"paths": ["keep", "top.txt"], "exclude_patterns": ["*.o"], "lstrip_paths": None,
+                             "pre_fail": {"artifacts": ["a.o", "dir:../keep", "../keep/deep/x.o"], "exclude_patterns": None,
+                                          "lstrip_paths": ["../keep/deep/", "zz/"], "base_path": "obj"}}),
+                       # exclude patterns are about the names INSIDE a dir: artifact: a pattern that matches the directory's
+                       # own name or path does not empty it, a pattern anchored at its top applies
+                       (t3, {"paths": ["dir:obj"], "exclude_patterns": ["obj"], "lstrip_paths": None}),
+                       (t3, {"paths": ["dir:obj", "dir:keep/deep"], "exclude_patterns": ["/a.o", "/x.o", "keep"], "lstrip_paths": None}),
+                       (t3, {"paths": ["dir:keep"], "exclude_patterns": ["deep/x.o", "/note.txt", "k*"], "lstrip_paths": None}),
                        (t1, {"paths": None, "exclude_patterns": None, "lstrip_paths": ["out/", "dist/"]}),
                        (t1, {"paths": ["out", "dist"], "exclude_patterns": None, "lstrip_paths": ["dist/", "out/"]}),
                        (t2, {"paths": None, "exclude_patterns": ["/build"], "lstrip_paths": None}),
